@@ -435,13 +435,13 @@ Section NumThm2.
               (List.length text <= List.length ds)%nat \/ f (nth (List.length ds) text 0%N) = false).
     { intros f Hf. destruct (Nat.lt_ge_cases (List.length ds) (List.length text)) as [L|L]; [right|left; exact L].
       pose proof (Hend 0%nat) as He. rewrite Nat.add_0_r in He. rewrite He. apply Hf. apply (Forall_nth_ok _ _ _ _ Hsfx). lia. }
+    assert (Hrun : forall k, (k < List.length ds)%nat -> in_alpha (a_int A) (nth (0 + k) text 0%N) = true)
+      by (intros k Hk; rewrite alpha_int; cbn [Nat.add]; rewrite Hmid by exact Hk; apply (Forall_nth_ok _ _ _ _ Hdec Hk)).
+    assert (Hst : (0 + List.length ds = List.length text)%nat \/ in_alpha (a_int A) (nth (0 + List.length ds) text 0%N) = false).
+    { cbn [Nat.add]. destruct (Hstop (in_alpha (a_int A)) ltac:(intros c Hc; rewrite alpha_int; apply (sfx_not c Hc))) as [L|L]; [left; lia|right; exact L]. }
     assert (Hfl : @Float_ U A (St text dd uu 0) = Ok (false, St text dd uu (List.length ds))).
     { unfold Float_.
       rewrite (bind_ok _ _ _ _ _ (at_alpha_true text dd uu (a_float A) 0 Hpos ltac:(rewrite alpha_float, H0d; reflexivity))).
-      assert (Hrun : forall k, (k < List.length ds)%nat -> in_alpha (a_int A) (nth (0 + k) text 0%N) = true)
-        by (intros k Hk; rewrite alpha_int; cbn [Nat.add]; rewrite Hmid by exact Hk; apply (Forall_nth_ok _ _ _ _ Hdec Hk)).
-      assert (Hst : (0 + List.length ds = List.length text)%nat \/ in_alpha (a_int A) (nth (0 + List.length ds) text 0%N) = false).
-      { cbn [Nat.add]. destruct (Hstop (in_alpha (a_int A)) ltac:(intros c Hc; rewrite alpha_int; apply (sfx_not c Hc))) as [L|L]; [left; lia|right; exact L]. }
       rewrite (bind_ok _ _ _ _ _ (run_skip_while text dd uu Hnl (a_int A) (List.length ds) 0 ltac:(rewrite Hlen; lia) Hrun Hst)).
       cbn [Nat.add].
       rewrite (bind_ok _ _ _ _ _ (at_char_false text dd uu (fun c => (tolower c =? 101)%N) (List.length ds)
@@ -450,13 +450,18 @@ Section NumThm2.
                  (Hstop (fun c => (c =? 46)%N) ltac:(intros c Hc; apply (sfx_not c Hc))))).
       reflexivity. }
     rewrite (bind_ok _ _ _ _ _ Hfl).
+    (* fix 3bd5fe4: the integer is read again from the start of the token *)
+    assert (Hsp : @set_pos U (P text 0) (St text dd uu (List.length ds)) = Ok (tt, St text dd uu 0)) by reflexivity.
+    rewrite (bind_ok _ _ _ _ _ Hsp).
+    rewrite (bind_ok _ _ _ _ _ (run_skip_while text dd uu Hnl (a_int A) (List.length ds) 0 ltac:(rewrite Hlen; lia) Hrun Hst)).
+    cbn [Nat.add].
     unfold IntSuffix_.
     rewrite (bind_ok _ _ _ _ _ (run_skip_while text dd uu Hnl (a_int_suffix A) (List.length sfx) (List.length ds) ltac:(rewrite Hlen; lia)
                ltac:(intros k Hk; rewrite Hend, alpha_int_suffix; apply (Forall_nth_ok _ _ _ _ Hsfx Hk)) ltac:(left; rewrite Hlen; reflexivity))).
     rewrite <- Hlen. rewrite (bind_ok _ _ _ _ _ (run_get_pos text dd uu (List.length text))).
     rewrite pos_str_whole.
     assert (Hh : (base = 8 /\ c0 = 48%N) \/ (base = 10 /\ c0 <> 48%N)) by (rewrite Eds in Hbx; exact Hbx).
-    clear Hbx Hfl Hpf Hstop Hno Hany Hmid Hend Hnl H0 H0d Hpos Hlen Hdec Hall Hnd Ev.
+    clear Hbx Hfl Hpf Hstop Hno Hany Hmid Hend Hnl H0 H0d Hpos Hlen Hdec Hall Hnd Ev Hrun Hst Hsp.
     subst ds. unfold text in *. clear text. cbn [app] in *.
     destruct Hh as [[-> ->]|[-> Hh]].
     - cbn [N.eqb Pos.eqb]. apply (int_token_whole (48%N :: r0 ++ sfx)). exact HB.
